@@ -456,6 +456,8 @@ fn cmd_chain(args: &[String], seed: u64, n: u64, out: &str, summary: &str) {
         }
         if hold {
             gen_hold_edges(&mut r, &mut scenarios);
+        } else if arg_val(args, "--all-flags").is_some() {
+            gen_drop_edges(&mut r, &mut scenarios);
         }
         for i in 0..n {
             let mut rr = r.fork();
